@@ -13,7 +13,7 @@ from ..seams import ExecMonitor, Hygiene, StdCapture, innermost_frame
 from ..simfs import SimFS
 
 ENGINE = "histsim_params"
-BUDGET = {"C20": {"quick": 12000, "thorough": 600000}}
+BUDGET = {"C20": {"quick": 16000, "thorough": 600000}}
 WORK = "/sim/work"
 
 PARAM_ERRORS = ("ParameterNotValid", "PathDoesNotExist", "InvalidRelativePath", "ResultDoesNotExist",
